@@ -1080,12 +1080,12 @@ def shape(T):
 # CPython on the genuine enclosing construct (the gates above): the expected nodes are the gate's nodes rebased from the
 # template to the phrase.
 
-MB_ATOMS = ['"é"', 'ü', "'日本'", 'ñ.é', 'f("ü")', '"é" "ü"', 'é[ü]', '-ñ', '(é)', '("ü", é)', '[ñ]', 'é if ü else ñ', 'not é', 'é or ü']
-PAT_ATOMS = ['1', '"é"', 'x', 'C(a, b=1)', '[a, "ü"]', '{"é": v}', 'None', 'ñ.b', '1 | 2', '(x)', '("é" as y)', '"é" "ü"', 'é', '-1']
+MB_ATOMS = ['(\né\n)', '((\n\n  ü))', '(  # c\n "ü")', '[\n ñ]', '(\n"é",\n)', '"é"', 'ü', "'日本'", 'ñ.é', 'f("ü")', '"é" "ü"', 'é[ü]', '-ñ', '(é)', '("ü", é)', '[ñ]', 'é if ü else ñ', 'not é', 'é or ü']
+PAT_ATOMS = ['(\nx\n)', '((\n\n  "é"))', '(\n"é" as y)', '[\n ñ, 1]', '1', '"é"', 'x', 'C(a, b=1)', '[a, "ü"]', '{"é": v}', 'None', 'ñ.b', '1 | 2', '(x)', '("é" as y)', '"é" "ü"', 'é', '-1']
 PAT_STARS = ['*_', '*rest', '*é']
-WITH_ATOMS = ['a', 'f("é") as b', '(c) as (d, e)', 'g as h.i', 'ü', '"é".x() as ñ', '(yield_) as y', 'a[0] as b[1]']
-TP_ATOMS = ['T', 'U: "é"', '*Ts', '**P', 'V: (int, "ü")', 'é', 'W: ñ']
-KW_ATOMS = ['k="é"', '**d', 'ñ=ü', 'key=(1)', '**{"é": 1}']
+WITH_ATOMS = ['open("éé") as ff', '"ééé".x as ñ', '(\né\n) as b', 'open("éé").x as ff', 'a', 'f("é") as b', '(c) as (d, e)', 'g as h.i', 'ü', '"é".x() as ñ', '(yield_) as y', 'a[0] as b[1]']
+TP_ATOMS = ['T: "éé"', '**ΠΠΠ', '*Ééé', 'T', 'U: "é"', '*Ts', '**P', 'V: (int, "ü")', 'é', 'W: ñ']
+KW_ATOMS = ['ééé="üü"', '**ΠΠΠ', 'k="é"', '**d', 'ñ=ü', 'key=(1)', '**{"é": 1}']
 ARG_LISTS = [['a', 'b: "é"', '/', 'c="ü"', '*args', 'd', 'e: ñ = "é"', '**kw'], ['é', 'ü=1'], ['a', '*', 'b', 'c="é"'], ['*a: "ü"', '**k: é'],
              ['a: "é"', 'b'], ['x', '/', 'y']]
 LAM_LISTS = [['a', 'b', '/', 'c="ü"', '*args', 'd', 'e="é"', '**kw'], ['é', 'ü=1'], ['a', '*', 'b', 'c="é"'], ['*a', '**k'], ['x', '/', 'y']]
@@ -1225,13 +1225,57 @@ def phrase_texts(P, rng, n):
             if el:
                 out.append((fam, _join(rng, el)))
         elif fam == 'withitems':
-            out.append((fam, _join(rng, [rng.choice(WITH_ATOMS) for _ in range(rng.randint(1, 3))])))
+            out.append((fam, _join(rng, [rng.choice(WITH_ATOMS) for _ in range(rng.choice([1, 1, 2, 3]))])))
         elif fam == 'type_params':
-            out.append((fam, _join(rng, rng.sample(TP_ATOMS, rng.randint(1, 3)))))
+            out.append((fam, _join(rng, rng.sample(TP_ATOMS, rng.choice([1, 1, 2, 3])))))
         elif fam in ('arguments', 'lambda'):
             lst = rng.choice(ARG_LISTS if fam == 'arguments' else LAM_LISTS)
             keep = [a for a in lst if rng.random() < 0.75] or lst[:1]
             out.append((fam, _join(rng, keep)))
+    return out
+
+
+# modes on which the transliteration check runs (no CPython gate needed: pfst against itself on the ASCII twin of the text)
+META_MODES = {
+    'tuple': ['expr', 'Tuple', 'expr_all', 'expr_slice', 'Tuple_elt', '_arglike', '_arglikes', 'expr_arglike', 'all'],
+    'tuple-star': ['expr', 'Tuple', 'expr_all', 'expr_slice', 'Tuple_elt', '_arglike', '_arglikes', 'expr_arglike', 'all'],
+    'slices': ['Tuple', 'expr_all', 'expr_slice', 'Tuple_elt', 'all'],
+    'slice': ['expr_slice', 'expr_all', 'Tuple_elt', 'all'],
+    'args': ['_arglikes', '_arglike', 'keyword', 'expr_arglike', 'all'],
+    'patterns': ['pattern', 'all'],
+    'attrlikes': ['_pattern_attrlikes', 'all'],
+    'withitems': ['_withitems', 'withitem', 'all'],
+    'type_params': ['_type_params', 'type_param', 'all'],
+    'arguments': ['arguments', 'arg', 'all'],
+    'lambda': ['arguments_lambda', 'all'],
+}
+
+
+def ascii_twin(T):
+    """the same text with every non-ASCII character replaced by 'x' (they only occur in names, strings and comments here):
+    same tokens, same character geometry, different byte geometry"""
+    return ''.join(c if ord(c) < 128 else 'x' for c in T)
+
+
+def char_shape(node, text):
+    """preorder [(class, lineno, CHARACTER col, end_lineno, end CHARACTER col)] of a parse result"""
+    lines = [l.encode() for l in text.split('\n')]
+    out = []
+
+    def b2c(ln, b):
+        if not (1 <= ln <= len(lines)) or b < 0:
+            return ('?', ln, b)
+        return len(lines[ln - 1][:b].decode(errors='replace'))
+
+    def go(n):
+        if getattr(n, 'end_lineno', None) is not None and hasattr(n, 'lineno'):
+            out.append((type(n).__name__, n.lineno, b2c(n.lineno, n.col_offset), n.end_lineno, b2c(n.end_lineno, n.end_col_offset)))
+        else:
+            out.append((type(n).__name__,))
+        for c in ast.iter_child_nodes(n):
+            go(c)
+
+    go(node)
     return out
 
 
